@@ -502,3 +502,10 @@ PROPS['C15']['required_classes']['all'] += ['policy-file-larger-than-64KiB', 'ke
 PROPS['C10']['required_classes']['all'] += ['policy-that-allows-everything']
 PROPS['C13']['units'].append({'test': 'TestC13JsWasm', 'timeout': {'quick': 600, 'thorough': 900}})
 PROPS['C16']['units'].append({'test': 'TestC16HugeListing', 'timeout': {'quick': 300, 'thorough': 1200}})
+
+# round 10: compilations for one architecture, of different sizes, at the same time (state kept per architecture)
+PROPS['C04']['units'].append({'test': 'TestC04Concurrent', 'checks': {'quick': 480, 'thorough': 16000}, 'shards': {'quick': 8, 'thorough': 16}, 'timeout': {'quick': 300, 'thorough': 3000}})
+PROPS['C04']['required_classes']['all'] += ['concurrent-compilations-of-different-sizes-for-one-architecture']
+# round 10: conditional entries without conditions (C05); an enclosing filter that refuses SECCOMP_GET_ACTION_AVAIL while the policy uses log (C11)
+PROPS['C05']['required_classes']['all'] += ['accepted:conditional-entries-none-of-which-carries-a-condition', 'accepted:some-conditional-entries-without-conditions']
+PROPS['C11']['required_classes']['all'] += ['calling-thread:action-avail-denied/nnp:true']
